@@ -540,6 +540,17 @@ def fake_http_proxy(c, a, rec):
         # a line of blanks inside the head is not the end of the head: what follows it must not reach the client as payload
         c.sendall(b'HTTP/1.1 200 OK\r\nA: b\r\n \r\nSecret-Header: must-not-leak\r\n\r\n')
         time.sleep(0.5)
+    elif host.startswith('dressed-'):
+        # a 200 with headers a CONNECT reply may carry and that mean nothing there (RFC 9110 9.3.6: Content-Length and
+        # Transfer-Encoding in a 2xx reply to CONNECT are ignored), then the origin's n bytes, glued or 0.3 s later
+        _, k, n, how = host.split('.')[0].split('-')
+        c.sendall(b'HTTP/1.1 200 Connection established\r\nContent-Length: %d\r\nVia: 1.1 fake\r\nConnection: keep-alive\r\n\r\n' % int(k) + (b'B' * int(n) if how == 'glued' else b''))
+        if how != 'glued':
+            time.sleep(0.3)
+            c.sendall(b'B' * int(n))
+        if rest:
+            c.sendall(rest)
+        _echo_loop(c)
     elif host.startswith('glued-'):
         # the origin speaks first and its n bytes travel in the same segment as the proxy's reply
         n = int(host.split('-')[1].split('.')[0])
